@@ -111,11 +111,86 @@ def translate_std_fds(msrc):
         sanitizes = bool(re.search(r"do\s*\{\s*fd\s*=\s*open\s*\(\s*\"/dev/null\"\s*,\s*O_RDWR\s*\)\s*;\s*\}\s*while\s*\(\s*"
                                    r"\(\s*fd\s*>=\s*0\s*\)\s*&&\s*\(\s*fd\s*<=\s*STDERR_FILENO\s*\)\s*\)\s*;", body)) \
             and bool(re.search(r"if\s*\(\s*fd\s*>\s*STDERR_FILENO\s*\)\s*\{\s*\(void\)\s*close\s*\(\s*fd\s*\)", body))
+    # the --syslog branch closes stderr (log_close_file): is the table repaired right after it?
+    resan = bool(re.search(r"if\s*\(\s*conf->got_syslog\s*\)\s*\{\s*log_close_file\s*\(\s*\)\s*;\s*sanitize_std_fds\s*\(\s*\)\s*;",
+                           main)) and sanitizes
+    if not re.search(r"if\s*\(\s*conf->got_syslog\s*\)\s*\{\s*log_close_file\s*\(\s*\)\s*;", main):
+        raise ValueError("main: the --syslog branch does not begin with log_close_file ()")
     fini = re.sub(r"/\*.*?\*/", "", func_body(msrc, "daemonize_fini"), flags=re.S)
     dups = re.findall(r"dup2\s*\(\s*dev_null\s*,\s*(\w+)\s*\)", fini)
     if any(d not in STD for d in dups):
         raise ValueError("daemonize_fini: dup2 onto %s" % dups)
-    return sanitizes, [STD[d] for d in dups]
+    return sanitizes, resan, [STD[d] for d in dups]
+
+
+LOG_PROBE = r'''
+#include "config.h"
+#include <errno.h>
+#include <limits.h>
+#include <setjmp.h>
+#include <stdarg.h>
+#include <stdio.h>
+#include <stdlib.h>
+#include <string.h>
+#include <syslog.h>
+#include <sys/stat.h>
+#include <sys/types.h>
+#include <unistd.h>
+#include <munge.h>
+#include "log.h"
+#include "path.h"
+static jmp_buf jb;
+static void p_fatal(int a, int b, const char *f, ...) { longjmp(jb, 1); }
+static void p_eow(int force, const char *f, ...) { if (!force) longjmp(jb, 2); }
+static int p_log_open_file(FILE *fp, const char *id, int pri, int opt) { if (fp) fclose(fp); return 0; }
+static int p_dirname(const char *s, char *d, size_t n) { snprintf(d, n, "%s", s); char *q = strrchr(d, '/'); if (q) *q = 0; return 0; }
+static int p_secure(const char *p, char *e, size_t n, int fl) { return 1; }
+#define log_err p_fatal
+#define log_errno p_fatal
+#define log_err_or_warn p_eow
+#define log_open_file p_log_open_file
+#define path_dirname p_dirname
+#define path_is_secure p_secure
+static void open_logfile (const char *logfile, int priority, int got_force)
+{
+@BODY@
+}
+int main(void) {
+    char dir[] = "/tmp/verif-logprobe-XXXXXX", f[256];
+    unsigned masks[] = {0, 022, 027, 077, 0777}, bits[] = {0400, 0200, 0100, 040, 020, 010, 04, 02, 01}, i, refused = 0;
+    struct stat st;
+    if (!mkdtemp(dir)) return 2;
+    snprintf(f, sizeof f, "%s/log", dir);
+    printf("(* munged.c open_logfile, its text compiled and run by tools/facts/start.py: mode of the log file it creates under\n"
+           "   a process umask (pairs umask, mode), and the permission bits of an existing log file it refuses without --force *)\n");
+    printf("Definition log_mode_under_umask : list (N * N) := [");
+    for (i = 0; i < sizeof masks / sizeof masks[0]; i++) {
+        unlink(f); umask(masks[i]);
+        if (setjmp(jb) == 0) open_logfile(f, 0, 0);
+        umask(0);
+        if (stat(f, &st) != 0) { fprintf(stderr, "open_logfile created nothing under umask %o\n", masks[i]); return 3; }
+        printf("%s(%u, %u)", i ? "; " : "", masks[i], (unsigned) st.st_mode & 07777);
+    }
+    printf("].\n");
+    for (i = 0; i < sizeof bits / sizeof bits[0]; i++) {
+        unlink(f); { FILE *fp = fopen(f, "w"); if (fp) fclose(fp); } chmod(f, 0600 | bits[i]);
+        if (setjmp(jb) != 0) refused |= bits[i]; else open_logfile(f, 0, 0);
+    }
+    printf("Definition log_refused_mask : N := %u.\n", refused);
+    unlink(f); rmdir(dir);
+    return 0;
+}
+'''
+
+
+def translate_daemon_umask(msrc):
+    body = re.sub(r"/\*.*?\*/", "", func_body(msrc, "daemonize_init"), flags=re.S)
+    calls = re.findall(r"\bumask\s*\(\s*([^)]*?)\s*\)", body)
+    if not calls:
+        return "None"
+    if len(calls) == 1 and re.fullmatch(r"0[0-7]*", calls[0]):
+        return "Some %d" % int(calls[0], 8)
+    raise ValueError("daemonize_init: umask calls %s" % calls)
 
 
 def gen(api):
@@ -125,7 +200,9 @@ def gen(api):
     try:
         msrc = open(os.path.join(R, "src/munged/munged.c")).read()
         var, size, op, bound = translate_sock_copy(msrc)
-        sanitizes, dups = translate_std_fds(msrc)
+        sanitizes, resan, dups = translate_std_fds(msrc)
+        dumask = translate_daemon_umask(msrc)
+        logbody = func_body(msrc, "open_logfile")
     except (ValueError, OSError) as e:
         raise api.GenError("start: " + str(e))
     tmp = tempfile.mkdtemp(prefix="verif-startgen-")
@@ -143,6 +220,18 @@ def gen(api):
     out += api.run_probe("start_seed_probe.c", extra_srcs=seed_extra, libs=["-lcrypto"])
     out += ("(* munged.c, translated from the text: main() first makes descriptors 0-2 open (sanitize_std_fds: open /dev/null\n"
             "   until the descriptor is > 2, close the last one); daemonize_fini dup2()s /dev/null onto these descriptors *)\n"
-            "Definition main_sanitizes_std_fds : bool := %s.\nDefinition fini_dup2_targets : list nat := [%s].\n"
-            % ("true" if sanitizes else "false", "; ".join("%d%%nat" % d for d in dups)))
+            "Definition main_sanitizes_std_fds : bool := %s.\n"
+            "(* ... and again right after log_close_file () (= fclose (stderr)) in the --syslog branch *)\n"
+            "Definition syslog_branch_resanitizes : bool := %s.\nDefinition fini_dup2_targets : list nat := [%s].\n"
+            % ("true" if sanitizes else "false", "true" if resan else "false", "; ".join("%d%%nat" % d for d in dups)))
+    tmp = tempfile.mkdtemp(prefix="verif-startgen-")
+    try:
+        w = os.path.join(tmp, "start_log_probe_w.c")
+        with open(w, "w") as f:
+            f.write(LOG_PROBE.replace("@BODY@", logbody))
+        out += api.run_probe(w)
+    finally:
+        shutil.rmtree(tmp, ignore_errors=True)
+    out += ("(* daemonize_init, translated from the text: the umask the daemon runs under in background mode (None: inherited) *)\n"
+            "Definition daemon_umask : option N := %s.\n" % dumask)
     return api.write_gen("GenStart.v", out)
